@@ -184,7 +184,7 @@ CONDITIONS = [
          pre=["0 <= top1 < %d" % len(TOPS), "0 <= top2 < %d" % len(TOPS), "0 <= second2 <= %d" % (N2 + 1), "0 <= version1 < 6", "0 <= version2 < 6"],
          partitions={"quick": [{"top1": 0, "version1": 0, "top2": t, "version2": v} for t in range(len(TOPS)) for v in (0, 1)] +
                               [{"top1": 2, "version1": 0, "top2": 0, "version2": 0}, {"top1": 0, "version1": 1, "top2": 0, "version2": 0}],
-                     "thorough": [{"top1": a, "top2": b, "version1": v} for a in range(len(TOPS)) for b in range(len(TOPS)) for v in (0, 1, 5)]},
+                     "thorough": [{"top1": a, "top2": b, "version1": v, "verify_twice": (a + b + v) % 2 == 0} for a in range(len(TOPS)) for b in range(len(TOPS)) for v in (0, 1, 5)]},
          timeout={"quick": 600, "thorough": 900}, path_timeout=60,
          functions=["response.StatusResponse.loads/_loads/_verify/status_ok", "response.AuthnResponse.verify/parse_assertion"],
          bounds="two messages in a row through one AuthnResponse object (each: top-level code, Version from the first 6 catalogue entries; second message: all second-level codes), "
